@@ -28,6 +28,7 @@ type Finding struct {
 	Witness    string `json:"witness,omitempty"`
 	Commit     string `json:"commit,omitempty"`
 	Input      string `json:"input,omitempty"`
+	Also       []string `json:"also,omitempty"`
 }
 
 func loadFindings() []Finding {
@@ -47,7 +48,18 @@ func (f *Finding) matches(prop, obl string) bool {
 	if f.Status != "known" {
 		return false
 	}
-	// a finding recorded for one property covers the same obligation when another property re-checks it
+	// a finding is tied to its property; "also" lists other properties whose checks re-generate the same obligation
+	if f.Property != prop {
+		ok := false
+		for _, a := range f.Also {
+			if a == prop {
+				ok = true
+			}
+		}
+		if !ok {
+			return false
+		}
+	}
 	if strings.HasSuffix(f.Obligation, "*") {
 		return strings.HasPrefix(obl, strings.TrimSuffix(f.Obligation, "*"))
 	}
